@@ -236,7 +236,7 @@ theorem size_scopeModifyAt (f : Tree → Tree) : ∀ (q : Path) (x sub : Tree), 
       simp only [scopeModifyAt, Tree.size]
       exact ⟨by omega, fun hlt => by have := h4 (h2 hlt); omega⟩
 
-theorem at?_scopeModifyAt (f : Tree → Tree) : ∀ (q : Path) (x sub : Tree), x.at? q = some sub →
+theorem ddAt?_scopeModifyAt (f : Tree → Tree) : ∀ (q : Path) (x sub : Tree), x.at? q = some sub →
     (scopeModifyAt f x q).at? q = some (f sub)
   | [], x, sub, h => by
     simp only [Tree.at?, Option.some.injEq] at h
@@ -249,7 +249,7 @@ theorem at?_scopeModifyAt (f : Tree → Tree) : ∀ (q : Path) (x sub : Tree), x
     | some k =>
       simp only [hk] at h
       simp only [scopeModifyAt, Tree.at?, List.getElem?_modify_eq, hk]
-      exact at?_scopeModifyAt f q k sub h
+      exact ddAt?_scopeModifyAt f q k sub h
 
 /-! ### One pass -/
 
@@ -278,7 +278,7 @@ theorem dedupPass_at? (env : Env) (t : Tree) (path : Path) (sub : Tree)
     (hs : t.at? path = some sub) :
     (dedupPass env t path sub).1.at? path = some (dpWalk env [] sub) := by
   rw [dedupPass_eq env t path sub hs]
-  exact at?_scopeModifyAt _ path t sub hs
+  exact ddAt?_scopeModifyAt _ path t sub hs
 
 /-! ### The loop -/
 
